@@ -48,7 +48,10 @@ def specs_for(ctx):
     # (T) seeded random worlds far beyond the exhaustive bound, batches of 1..3
     n_worlds = 60 if ctx.quick else 1500
     for _ in range(n_worlds):
-        w = random_world(rng)
+        shape = rng.random()
+        # mostly mid-sized trees; sometimes tiny ones (2-4 modules) and deep ones (up to 7 levels)
+        w = (random_world(rng, n_modules=rng.randint(2, 4), n_imports=rng.randint(0, 4)) if shape < 0.1 else
+             random_world(rng, depth=7) if shape < 0.25 else random_world(rng))
         ep = RuleEpisode(w, render=rng.choice(["ident", "clean", "adv", "adv2"]))
         for rule in rc.sampled_rules(rng, w.modules, 60, max_batch=3):
             ep.eval(rule, single_as_string=rng.random() < 0.5)
